@@ -1,6 +1,7 @@
 """World generator for the end-to-end simulator suite."""
 from __future__ import annotations
 
+from harness import common
 from harness.gen import taskgraph_gen as tgen
 
 RES = ["GPU", "CPU"]
@@ -33,12 +34,32 @@ def gen_workload(rng, malformed=False, batch=False, dag=False, resolve=False):
         if resolve:
             # two or three conditional / join pairs in sequence (the later ones are decided at submission too)
             prev_join = None
+            # shapes of a pair (drawn from a sub-stream): plain; "elseif" = one branch head
+            # is itself a conditional whose branches end in the SAME join (if / else-if / else with one terminal);
+            # "joincond" = the join of the previous pair is at the same time the conditional of this pair
+            r3 = common.Rng(0, f"sim-resolve-shapes/{jname}/{rng.random()}")
             for _k in range(rng.choice([2, 2, 3])):
-                c = b.task(conditional=True)
+                shape = r3.choice(["plain", "plain", "plain", "elseif", "elseif", "joincond"])
+                if shape == "joincond" and prev_join is not None:
+                    c = prev_join
+                    b.nodes[c]["conditional"] = True
+                else:
+                    c = b.task(conditional=True)
+                    if prev_join is not None:
+                        b.edge(prev_join, c)
                 kk = rng.choice([2, 2, 3])
                 probs = rng.choice(tgen.PROB_SETS[kk])
                 join_parents = []
                 for i in range(kk):
+                    if shape == "elseif" and i == kk - 1:
+                        head = b.task(conditional=True, prob=probs[i])   # else-if: a nested conditional, same join
+                        b.edge(c, head)
+                        p2 = r3.choice(tgen.PROB_SETS[2])
+                        for j in range(2):
+                            h2 = b.task(prob=p2[j])
+                            b.edge(head, h2)
+                            join_parents.append(h2)
+                        continue
                     head = b.task(prob=probs[i])
                     b.edge(c, head)
                     tail = head
@@ -49,8 +70,6 @@ def gen_workload(rng, malformed=False, batch=False, dag=False, resolve=False):
                 join = b.task(terminal=True)
                 for x in join_parents:
                     b.edge(x, join)
-                if prev_join is not None:
-                    b.edge(prev_join, c)
                 prev_join = join
         elif rng.random() < (0.0 if dag else 0.75):
             b.term(rng.choice([0, 1, 1, 2, 2]))
